@@ -46,8 +46,11 @@ Definition k_channel_width := 10.
 Definition k_ct : list Z := [11; 12; 13; 14; 15; 16].
 (* value ids with a meaning *)
 Definition v_channel := 1.          (* [setup] chip region = "channel" *)
-Definition medium_known (v : Z) : bool := (1 <=? v) && (v <=? 3).
-Definition medium_other (v : Z) : bool := v =? 4.
+(* medium value ids: 1-3 and 10-19 spellings of known media, 4 and 20
+   spellings of "other", anything else is not a medium *)
+Definition medium_known (v : Z) : bool :=
+  (1 <=? v) && (v <=? 3) || (10 <=? v) && (v <=? 19).
+Definition medium_other (v : Z) : bool := (v =? 4) || (v =? 20).
 
 (* error kinds *)
 Definition e_key := 2.      (* KeyError: feature does not exist *)
